@@ -110,7 +110,7 @@ func analyse(res *core.Result, pkg *packages.Package, fd *ast.FuncDecl) {
 					Rule: "POOL.escape",
 					Key:  fmt.Sprintf("POOL.escape|%s|%s", name, types.ExprString(lhs[i])),
 					Pos:  core.Pos(n.Pos()), Func: name,
-					Msg:  fmt.Sprintf("pooled workspace from %s is stored into %s and outlives the call", fn.Name(), types.ExprString(lhs[i])),
+					Msg: fmt.Sprintf("pooled workspace from %s is stored into %s and outlives the call", fn.Name(), types.ExprString(lhs[i])),
 				})
 			}
 		}
@@ -503,6 +503,6 @@ func escape(res *core.Result, fn string, tok types.Object, at ast.Node, how stri
 		Rule: "POOL.escape",
 		Key:  fmt.Sprintf("POOL.escape|%s|%s", fn, tok.Name()),
 		Pos:  core.Pos(at.Pos()), Func: fn,
-		Msg:  fmt.Sprintf("pooled workspace %s is %s: it would be retained after being returned to the pool", tok.Name(), how),
+		Msg: fmt.Sprintf("pooled workspace %s is %s: it would be retained after being returned to the pool", tok.Name(), how),
 	})
 }
